@@ -18,7 +18,12 @@ Record case := {
   k_err : Z;                    (* 0 = no exception; 1 AssertionError; 2 KeyError; 9 other *)
   k_written : list Z;           (* file content after the history *)
   k_read_ok : bool;             (* bnp.open(path).read() succeeded *)
-  k_read : list row             (* ... and returned these rows *)
+  k_read : list row;            (* ... and returned these rows *)
+  (* an alternative spelling of the same table, written by the harness (SAM-standard: no TAB before absent tags),
+     and what bnp.open(...).read() returned for it; [] = not applicable *)
+  k_alt_file : list Z;
+  k_alt_read_ok : bool;
+  k_alt_read : list row
 }.
 
 (* floats: |a - b| <= 10^-12 |a| on exact rationals *)
@@ -40,7 +45,11 @@ Definition spec_ok (c : case) : bool :=
   (k_err c =? 0)
   && zlist_eqb (k_written c) (spec_file (k_fmt c) (k_header c) (k_hist c))
   && k_read_ok c
-  && rows_eqb true (rows_of_hist (k_hist c)) (k_read c).
+  && rows_eqb true (rows_of_hist (k_hist c)) (k_read c)
+  && (match k_alt_file c with
+      | [] => true
+      | _ => k_alt_read_ok c && rows_eqb true (rows_of_hist (k_hist c)) (k_alt_read c)
+      end).
 
 Definition model_ok (c : case) : bool :=
   let '(e, out) := run_hist (k_fmt c) (k_header c) (k_gz c) (k_hist c) in
@@ -50,4 +59,11 @@ Definition model_ok (c : case) : bool :=
       match parse_file (k_fmt c) (k_schema c) (k_written c) with
       | Some rs => k_read_ok c && rows_eqb false rs (k_read c)
       | None => negb (k_read_ok c)
+      end)
+  && (match k_alt_file c with
+      | [] => true
+      | _ => match parse_file (k_fmt c) (k_schema c) (k_alt_file c) with
+             | Some rs => k_alt_read_ok c && rows_eqb false rs (k_alt_read c)
+             | None => negb (k_alt_read_ok c)
+             end
       end).
